@@ -62,6 +62,10 @@ inductive SOp (κ : Type)
   | map (sid : Nat) (op : KOp κ)       -- `apply_map`
   deriving DecidableEq, Repr
 
+def SOp.sid {κ : Type} : SOp κ → Nat
+  | .put i _ => i
+  | .map i _ => i
+
 /-- The durable state: per store id a value and/or a map. -/
 structure StoreState (κ : Type) where
   values : List (Nat × Bytes) := []
